@@ -25,7 +25,12 @@ def one(sid, tier):
             rr = subprocess.run([V + "/check", p, "--tier", tier], capture_output=True, text=True, env=env)
             if rr.returncode != 1 or f"VIOLATION property={p}" not in rr.stdout:
                 missed.append(f"{p} rc={rr.returncode}")
-        return sid, not missed, "; ".join(missed)
+        # a change recorded as undecided in some check must stop that check (exit 2): it may never pass there silently
+        for p in meta.get("undecided_in", []):
+            rr = subprocess.run([V + "/check", p, "--tier", tier], capture_output=True, text=True, env=env)
+            if rr.returncode == 0:
+                missed.append(f"{p} rc=0 (recorded as undecided, now silent)")
+        return sid, not missed, "; ".join(missed) + (" [undecided in " + ",".join(meta["undecided_in"]) + "]" if meta.get("undecided_in") else "")
     finally:
         shutil.rmtree(root, ignore_errors=True)
 
